@@ -118,6 +118,26 @@ Theorem c27_replication_batch_alloc_bounded : forall valid data,
 Proof. exact batch_alloc_bounded. Qed.
 Print Assumptions c27_replication_batch_alloc_bounded.
 
+(* Whatever the decoders accept — from ANY byte string — is within the declared bounds:
+   at most 256 items, at most 256 entries / proposals / records / indexes per slice,
+   versions within uint16, sizes within int, request ids non-zero, Valid() at every position
+   (the accept set is inside the encoder's domain) *)
+Theorem c27_replication_result_decoded_in_bounds : forall data b,
+  all_bytes data = true -> DecodeExchangeBatchResult data = Some b -> wf exchangeBatchResult b = true.
+Proof. exact result_decoded_in_bounds. Qed.
+Print Assumptions c27_replication_result_decoded_in_bounds.
+
+Theorem c27_replication_batch_decoded_in_bounds : forall valid data b,
+  all_bytes data = true -> DecodeExchangeBatch valid data = Some b -> wf (exchangeBatch valid) b = true.
+Proof. exact batch_decoded_in_bounds. Qed.
+Print Assumptions c27_replication_batch_decoded_in_bounds.
+
+(* the same for every format whose counts are checked against constants *)
+Theorem c27_combinator_decoded_in_domain : forall A (f : fmt A) a v r,
+  wfmt f -> all_bytes a = true -> decode f a = Some (v, r) -> wf f v = true /\ all_bytes r = true.
+Proof. exact decode_wf. Qed.
+Print Assumptions c27_combinator_decoded_in_domain.
+
 (* whatever is decoded has the only version, a valid priority and 1..256 items *)
 Theorem c27_replication_batch_decoded_bounds : forall valid data b,
   DecodeExchangeBatch valid data = Some b ->
@@ -262,7 +282,7 @@ Print Assumptions c27_model_prefix_satisfies_monitor.
 
 (* mutated / arbitrary bytes *)
 Theorem c27_model_bytes_satisfy_monitor : forall mode data,
-  2 <= mode ->
+  2 <= mode -> all_bytes data = true ->
   C27_monitor (C27Case mode data true (PReplResult None (DecodeExchangeBatchResult data)) false [] 0 0 0) = 0.
 Proof. exact result_bytes_satisfy_monitor. Qed.
 Print Assumptions c27_model_bytes_satisfy_monitor.
